@@ -41,6 +41,13 @@ Proof. exact analyze_range. Qed.
 Theorem C15_analyze_zero_iff : forall ops, analyze ops = 0 <-> Forall (fun o => effect_of o = 0) ops.
 Proof. exact analyze_zero_iff. Qed.
 
+(* The byte-level query composes as well: nothing leaks across the boundary of two serialised programs. *)
+Theorem C15_bytes_contains_any_concat : forall a b fl,
+  Forall well_formed_op a -> Forall well_formed_op b -> 0 <= fl < 64 ->
+  bytes_contains_any (to_bytes a ++ to_bytes b) fl =
+  (bytes_contains_any (to_bytes a) fl || bytes_contains_any (to_bytes b) fl)%bool.
+Proof. exact bytes_contains_any_concat. Qed.
+
 (* Non-vacuity: an immediate made of post-read opcode bytes does not count, a real op after it does. *)
 Example C15_example :
   bytes_contains_any (to_bytes [OPush (-9042521604759584126); OPop]) 48 = false /\
